@@ -8,13 +8,15 @@ The hidden state of a recognise call is explicit in `RTV.Model.Conc`: `Env = {pr
   (`cache_transparent`: warm = cold) and whatever other threads do at the same time, at the granularity of
   the dict operations on the shared cache (`interleave_cache`: double construction of an equal model is
   possible, a foreign model is never returned).
-* **precision**: a model's answer is a function `parse id query p` of its constructor key, the query and the
-  precision its Decimal arithmetic runs under. For every piece of arithmetic reached through `@precision(prec=15)`
-  the ambient precision of the calling thread is irrelevant (`decorated_prec_indep`, `digit_value_prec_indep`);
-  for arithmetic that is *not* decorated the result depends on the thread (`undecorated_prec_dependent`,
+* **precision**: a model's answer is a function of its constructor key, the query and the precision its
+  Decimal arithmetic runs under. In the code as it is every such computation is reached through
+  `@precision(prec=15)` (`parseVia .decorated`), so the ambient precision of the calling thread is irrelevant
+  (`decorated_prec_indep`, `digit_value_prec_indep`) and `recognition_pure` holds at full strength: the entities are
+  a function of (request, query) alone — any history, any cache state, any thread.
+  Regression section: before the fix the fraction / CJK paths were not decorated (`parseVia .undecorated`); for
+  that variant the result depends on the thread (`undecorated_prec_dependent`,
   `recognition_depends_on_thread_precision`: 1/3 on the importing thread, precision 15, against any other thread,
-  precision 28 — design defect #2). `recognition_pure` is the full statement under the hypothesis that every
-  path is decorated (the proposed repair); `recognition_pure_same_prec` is the statement the code as it is satisfies.
+  precision 28) and only `recognition_pure_same_prec` holds.
 Not modelled (validated by the thread runs of the correspondence, named in ASSUMPTIONS): preemption inside the
 `regex` engine, garbage collection, mutation of a model object after construction.
 Helper lemmas: `RTV/Lemmas/Conc.lean`, `RTV/Lemmas/Factory.lean`.
@@ -50,26 +52,17 @@ theorem recognition_pure_same_prec {Q R} (cfg : Cfg) (parse : ModelId → Q → 
   · rw [cache_transparent cfg ops₁ op hown, cache_transparent cfg ops₂ op hown]
   · intro _; rfl
 
-/-
-**recognition_pure — full statement (FALSE for the code as it is):**
-  ∀ cfg parse ops₁ ops₂ p₁ p₂ op q, OwnType cfg op →
-    (recognise cfg parse (envAfter cfg p₁ ops₁) op q).2 = (recognise cfg parse (envAfter cfg p₂ ops₂) op q).2
-for the `parse` of the real models: the fraction / CJK paths divide Decimals outside `@precision(15)`, so the
-answer depends on the calling thread's precision (`recognition_depends_on_thread_precision`). Proved: the
-statement for every `parse` that does not look at the ambient precision (all paths decorated).
--/
-
-/-- **recognition_pure** under the hypothesis that no Decimal arithmetic of the model runs outside
-`@precision(15)`: the entities are a function of (request, query) alone — any history, any cache state, any
-thread. -/
-theorem recognition_pure {Q R} (cfg : Cfg) (parse : ModelId → Q → Nat → R) (ops₁ ops₂ : List Op)
-    (p₁ p₂ : Nat) (op : Op) (q : Q) (hown : OwnType cfg op)
-    (hdec : ∀ id q p p', parse id q p = parse id q p') :
-    (recognise cfg parse (envAfter cfg p₁ ops₁) op q).2 = (recognise cfg parse (envAfter cfg p₂ ops₂) op q).2 := by
+/-- **recognition_pure** (full strength; the code as it is: every Decimal computation of a model is reached
+through `@precision(prec=15)`). The entities a recognise call returns are a function of the request and the
+query alone: any two histories, any two cache states, any two threads (ambient precisions) give the same answer. -/
+theorem recognition_pure {Q R} (cfg : Cfg) (f : ModelId → Q → Nat → R) (ops₁ ops₂ : List Op)
+    (p₁ p₂ : Nat) (op : Op) (q : Q) (hown : OwnType cfg op) :
+    (recognise cfg (parseVia .decorated f) (envAfter cfg p₁ ops₁) op q).2 =
+    (recognise cfg (parseVia .decorated f) (envAfter cfg p₂ ops₂) op q).2 := by
   simp only [recognise, envAfter]
   apply parse_of_erase_eq
   · rw [cache_transparent cfg ops₁ op hown, cache_transparent cfg ops₂ op hown]
-  · intro id; exact hdec id q p₁ p₂
+  · intro id; rfl
 
 /-! ## Interleavings -/
 
@@ -139,11 +132,13 @@ theorem digit_value_prec_indep (a₁ a₂ : Nat) (tab : RTV.Num.DigitTab) (c : R
 theorem undecorated_same_thread {α} (f : Nat → α) (a : Nat) (path : Path) :
     runUnder path a f = runUnder path a f := rfl
 
+/-! ### Regression section: the fraction paths before the fix (not decorated) -/
+
 /-- `numer_value / denomi_value` of `_frac_like_number_parse` for "one third" / `三分之一`: Decimal(1) / Decimal(3)
 under the context precision -/
 def oneThird (p : Nat) : Option RTV.Dec.Dec := RTV.Dec.div p (RTV.Dec.ofNat 1) (RTV.Dec.ofNat 3)
 
-/-- **undecorated_prec_dependent** (negative witness, design defect #2). The undecorated division gives
+/-- **undecorated_prec_dependent** (negative witness of the repaired defect). The undecorated division gives
 0.333333333333333 (15 digits) on the thread that imported the package and 0.3333333333333333333333333333
 (28 digits) on any other thread. -/
 theorem undecorated_prec_dependent :
@@ -152,18 +147,19 @@ theorem undecorated_prec_dependent :
     runUnder .undecorated (threadPrec true) oneThird ≠ runUnder .undecorated (threadPrec false) oneThird := by
   decide +kernel
 
-/-- the same division under the decorator: 15 digits on every thread (the proposed repair) -/
+/-- the same division under the decorator (the code as it is): 15 digits on every thread -/
 theorem decorated_one_third (a : Nat) :
     runUnder .decorated a oneThird = some ⟨false, 333333333333333, -15⟩ := by
   show oneThird 15 = _
   decide +kernel
 
-/-- **recognition_depends_on_thread_precision** (negative theorem for the full statement). With a `parse` that
-divides outside the decorator, the same request for the same query on the same (empty) cache gives different
-entities on the importing thread and on another thread. -/
+/-- **recognition_depends_on_thread_precision** (negative theorem for the undecorated variant). With a model
+that divides outside the decorator, the same request for the same query on the same (empty) cache gives different
+entities on the importing thread and on another thread — `recognition_pure` fails for `parseVia .undecorated`.
+Replayed on the implementation on every run (`三分之一` on a fresh thread). -/
 theorem recognition_depends_on_thread_precision :
     let cfg := genCfg asciiPy true
-    let parse : ModelId → Unit → Nat → Option RTV.Dec.Dec := fun _ _ p => runUnder .undecorated p oneThird
+    let parse : ModelId → Unit → Nat → Option RTV.Dec.Dec := parseVia .undecorated (fun _ _ => oneThird)
     let op : Op := .get ⟨0, none, 0⟩ numberModel (some frFr) true
     (recognise cfg parse ⟨threadPrec true, State.init, []⟩ op ()).2 ≠
     (recognise cfg parse ⟨threadPrec false, State.init, []⟩ op ()).2 := by decide +kernel
